@@ -396,3 +396,7 @@ Proof.
   - rewrite E. reflexivity.
   - exact IH.
 Qed.
+
+Print Assumptions find_list_subl.
+Print Assumptions replace_docs_spec.
+Print Assumptions apply_list_ids.
